@@ -141,6 +141,9 @@ def main():
                 cls = cls_of(node)
                 out = ["M", "extent=%d" % cls._EXTENT_BYTES_]
                 out.append("fixed_port_id=%d" % cls._FIXED_PORT_ID_ if hasattr(cls, "_FIXED_PORT_ID_") else "fixed_port_id=none")
+                if len(node["path"]) == 2:  # request / response: what the enclosing SERVICE class exports
+                    svc = getattr(importlib.import_module(node["module"]), node["path"][0])
+                    out.append("svc.fixed_port_id=%d" % svc._FIXED_PORT_ID_ if hasattr(svc, "_FIXED_PORT_ID_") else "svc.fixed_port_id=none")
                 for name, pyname, kind in node.get("consts", []):
                     v = getattr(cls, pyname)
                     if kind == "b":
